@@ -1413,9 +1413,11 @@ def run(ctx):
     label_alignment(ctx, repo)
     validators(ctx, repo, an)
     refresh_guards(ctx, repo, an)
+    helper_conformance(ctx, repo)
     ctx.floor("R4", 30)
     ctx.floor("R5", 4)
     ctx.floor("R6", 31)
+    ctx.floor("R7", 6)
 
 
 
@@ -1816,3 +1818,144 @@ def refresh_guards(ctx, repo, an):
             else:
                 ctx.ok("R6", construct, "%d stores on self (%d under a guard), none guarded by the attribute's own previous value" % (
                     len(stores), guarded), ctx.loc(cls.module, fn), nontrivial=guarded > 0)
+
+
+
+# -------------------------------------------------------------------------------------------------- R7
+def helper_conformance(ctx, repo):
+    """R7 model conformance: the contracts R1/R3/R4 assume of the helpers they model, decided from the helpers' source.
+    * from_3d_numpy_to_2d_array: row-major reshape keeping the instance axis (result is a function of the values only);
+    * from_nested_to_2d_array: the cells of a column are laid out positionally (no label-aligning pandas constructor);
+    * converters behind check_X's coercion keep the instance order (no groupby that sorts the instance labels);
+    * _enforce_min_instances rejects exactly n < min (a single instance is a valid panel)."""
+    dp = "sktime/utils/data_processing.py"
+    mod = repo.module(dp)
+
+    def ext(m, fn, e):
+        dd = dotted(e)
+        stored = {x.id for x in astq.walk_no_nested(fn) if isinstance(x, ast.Name) and isinstance(x.ctx, ast.Store)}
+        if not dd or dd.split(".")[0] in stored or dd.split(".")[0] in astq.all_param_names(fn):
+            return None
+        sym = repo.resolve_dotted(m, dd)
+        return sym.dotted if sym is not None else None
+
+    # (a) reshape
+    fn = repo.func(dp, "from_3d_numpy_to_2d_array")
+    par = astq.param_names(fn)[0]
+    resh = [c for c in astq.calls(fn) if (isinstance(c.func, ast.Attribute) and c.func.attr == "reshape"
+                                          and isinstance(c.func.value, ast.Name) and c.func.value.id == par)
+            or (ext(mod, fn, c.func) == "numpy.reshape" and c.args and isinstance(c.args[0], ast.Name) and c.args[0].id == par)]
+    c0 = "from_3d_numpy_to_2d_array:reshape"
+    if len(resh) != 1:
+        ctx.undecided("R7", c0, "expected one reshape of the panel, found %d" % len(resh), ctx.loc(mod, fn))
+    else:
+        c = resh[0]
+        order = next((k.value for k in c.keywords if k.arg == "order"), None)
+        dims = list(c.args[1:] if ext(mod, fn, c.func) == "numpy.reshape" else c.args)
+        if len(dims) == 1 and isinstance(dims[0], (ast.Tuple, ast.List)):
+            dims = list(dims[0].elts)
+        first_ok = bool(dims) and astq.canon(dims[0]) in ("%s.shape[0]" % par, "len(%s)" % par) and len(dims) == 2 \
+            and _const_int(dims[1]) == -1
+        if order is not None and not (isinstance(order, ast.Constant) and order.value == "C"):
+            ctx.violation("R7", c0, "the panel is flattened with order=%s: the position of a value in the row then depends on the "
+                          "memory layout of the caller's array (Fortran-ordered / transposed views), not only on its values; "
+                          "R1/R4 model this helper as the row-major (instance, column*time) layout" % astq.canon(order), ctx.loc(mod, c),
+                          witness={"input": "np.asfortranarray(X) vs X (same values)"})
+        else:
+            ctx.check(first_ok, "R7", c0, "row-major reshape to (n_instances, -1)",
+                      "the reshape target %s does not keep the instance axis first" % [astq.canon(d) for d in dims], ctx.loc(mod, c))
+
+    # (b) positional cells
+    fn = repo.func(dp, "from_nested_to_2d_array")
+    par = astq.param_names(fn)[0]
+    bad = None
+    for c in astq.calls(fn):
+        if ext(mod, fn, c.func) in ("pandas.DataFrame", "pandas.concat", "pandas.Series") and c.args:
+            for x in ast.walk(c.args[0]):
+                if isinstance(x, ast.Call) and isinstance(x.func, ast.Attribute) and x.func.attr in ("tolist", "to_list") \
+                        and any(isinstance(y, ast.Name) and y.id == par for y in ast.walk(x.func.value)) \
+                        and not isinstance(x.func.value, ast.Name):
+                    bad = c
+    c0 = "from_nested_to_2d_array:cells"
+    if bad is not None:
+        ctx.violation("R7", c0, "the cells of a column are passed through %s: pandas aligns the per-instance Series on their own "
+                      "index labels (union of labels, NaN where an instance lacks one) instead of laying the values out "
+                      "positionally; R1/R4 model this helper as row i = values of instance i in order" % astq.canon(bad)[:70],
+                      ctx.loc(mod, bad), witness={"input": "two instances whose Series cells carry different time indexes"})
+    else:
+        ctx.ok("R7", c0, "cell values are stacked positionally (no label-aligning constructor on the cell list)", ctx.loc(mod, fn))
+
+    # (c) instance order in the converters behind coerce_to_numpy
+    for name in ("from_nested_to_3d_numpy", "from_nested_to_multi_index", "from_multi_index_to_3d_numpy"):
+        fn = repo.func(dp, name)
+        parents = {}
+        for n in ast.walk(fn):
+            for ch in ast.iter_child_nodes(n):
+                parents[id(ch)] = n
+        bad = None
+        for c in astq.calls(fn):
+            if isinstance(c.func, ast.Attribute) and c.func.attr == "groupby":
+                srt = next((k.value for k in c.keywords if k.arg == "sort"), None)
+                if srt is not None and isinstance(srt, ast.Constant) and srt.value is False:
+                    continue
+                p = parents.get(id(c))
+                if isinstance(p, ast.Call) and isinstance(p.func, ast.Name) and p.func.id == "len":
+                    continue  # only counted
+                bad = c
+        c0 = "%s:instance-order" % name
+        if bad is not None:
+            ctx.violation("R7", c0, "instances are taken from %s: groupby sorts the group keys, so the rows of the 3-d array follow "
+                          "the sorted instance labels, not the order of the frame (check_X(coerce_to_numpy=True) re-orders a "
+                          "nested frame with unsorted index, the 3-d array of the same data keeps its order)" % astq.canon(bad)[:60],
+                          ctx.loc(mod, bad), witness={"input": "nested frame with row index [2, 0, 1] and a non-nested column"})
+        else:
+            ctx.ok("R7", c0, "no order-changing grouping of the instances", ctx.loc(mod, fn))
+
+    # (d) minimum-instances predicate
+    vm = repo.module(PANEL_VALIDATION)
+    fn = repo.func(PANEL_VALIDATION, "_enforce_min_instances")
+    pars = astq.param_names(fn)
+    from ..cfg import CFG
+    g = CFG(fn)
+    c0 = "_enforce_min_instances:predicate"
+
+    def only_raises(start):
+        seen, stack, hits_exit = set(), [start], False
+        while stack:
+            n = stack.pop()
+            if n.id in seen:
+                continue
+            seen.add(n.id)
+            if n is g.exit:
+                hits_exit = True
+            stack.extend(x for x, _ in n.succ)
+        return not hits_exit
+
+    tests = [n for n in g.nodes if n.kind == "test" and isinstance(n.stmt, ast.If)]
+    guards = []
+    for tn in tests:
+        for br in (True, False):
+            heads = [x for x, lab in tn.succ if lab == br]
+            other = [x for x, lab in tn.succ if lab == (not br)]
+            if heads and all(only_raises(h) for h in heads) and other and not all(only_raises(o) for o in other):
+                guards.append((tn, tn.stmt.test, br))
+    if len(guards) != 1 or len(pars) < 2:
+        ctx.undecided("R7", c0, "expected one rejecting guard", ctx.loc(vm, fn))
+    else:
+        _, test, branch = guards[0]
+        while isinstance(test, ast.UnaryOp) and isinstance(test.op, ast.Not):
+            test, branch = test.operand, not branch
+        t = astq.inline_locals(fn, test)
+        want_n = "%s.shape[0]" % pars[0]
+        ok = None
+        if isinstance(t, ast.Compare) and len(t.ops) == 1:
+            l, r, op = astq.canon(t.left), astq.canon(t.comparators[0]), t.ops[0]
+            if {l, r} == {want_n, pars[1]} or {l, r} == {"len(%s)" % pars[0], pars[1]}:
+                n_left = l != pars[1]
+                rejects_lt = (isinstance(op, ast.Lt) and n_left) or (isinstance(op, ast.Gt) and not n_left)
+                accepts_ge = (isinstance(op, ast.GtE) and n_left) or (isinstance(op, ast.LtE) and not n_left)
+                ok = (rejects_lt and branch is True) or (accepts_ge and branch is False)
+        ctx.check(ok, "R7", c0, "rejects exactly n_instances < min_instances", "the guard `%s` does not reject exactly n < min: a panel "
+                  "with n == min_instances (a single instance with the default 1) is rejected / a smaller one accepted, so the "
+                  "single-instance output cannot equal the corresponding row of the batch output" % astq.canon(test),
+                  ctx.loc(vm, test), witness={"input": "X with exactly one instance"})
